@@ -304,5 +304,6 @@ func init() {
 		esib.CheckMaskedScan(run, p, "SIB-scan")
 		arithmeticFoundations(c)
 		groupFoundations(c, true)
+		readFullRule(c)
 	}
 }
